@@ -4,6 +4,8 @@ import (
 	"bytes"
 	"crypto/tls"
 	"fmt"
+	"os"
+	"os/exec"
 	"strings"
 	"sync"
 	"testing"
@@ -178,6 +180,28 @@ func c08Run(c c08Case) []*core.Violation {
 			vs = append(vs, core.V("signed-entity-changed", "the signed entity differs between the first and the second render"))
 		}
 		rec.AddExtra("signatures_verified", 1)
+		// differential cross-check on a deterministic sample (thorough tier, only where an openssl
+		// binary exists): a second, unrelated CMS implementation has to accept what cmsverify accepts
+		if core.Thorough() && buf.Len()%4 == 0 {
+			if ok, out, avail := opensslVerify(buf.Bytes()); avail {
+				rec.AddExtra("openssl_cross_checked", 1)
+				if ok {
+					// once per process: the same call has to reject a tampered copy, otherwise its
+					// verdicts mean nothing
+					opensslSelfTest.Do(func() {
+						bad := bytes.Replace(buf.Bytes(), entity.Raw, append(append([]byte{}, entity.Raw...), 'x'), 1)
+						if ok2, _, avail2 := opensslVerify(bad); avail2 && ok2 {
+							vs = append(vs, core.V("HARNESS-openssl-accepts-tampered", "openssl accepted a message whose signed entity was extended by one byte"))
+						} else if avail2 {
+							rec.AddExtra("openssl_rejected_tampered_copy", 1)
+						}
+					})
+				}
+				if !ok {
+					vs = append(vs, core.V("openssl-disagrees", "%s: cmsverify accepts the signature, `openssl smime -verify -noverify` does not: %s", where, clipS(out)))
+				}
+			}
+		}
 	}
 	feat := fmt.Sprintf("%v/%s/%v/%v/%s/%v", c.EmptyHeader, c.EmptyIgnore, c.MultiLinePre, c.FailFirst > 0, c.Issuer, c.AddAltBetween)
 	rec.NonTrivial(core.Join(spec.ShapeKey(), c.Key, c.Intermediate, c.Via, feat))
@@ -185,6 +209,42 @@ func c08Run(c c08Case) []*core.Violation {
 	rec.Class("key:" + c.Key)
 	rec.Class(fmt.Sprintf("shape:p%d/e%d/a%d", min(np, 2), min(ne, 2), min(na, 2)))
 	return vs
+}
+
+var opensslSelfTest sync.Once
+
+var opensslPath = func() string {
+	p, err := exec.LookPath("openssl")
+	if err != nil {
+		return ""
+	}
+	return p
+}()
+
+// opensslVerify runs `openssl smime -verify -noverify` over a rendered message.
+func opensslVerify(msg []byte) (ok bool, out string, available bool) {
+	if opensslPath == "" {
+		return false, "", false
+	}
+	f, err := os.CreateTemp("", "verif-c08-*.eml")
+	if err != nil {
+		return false, "", false
+	}
+	defer os.Remove(f.Name())
+	if _, err := f.Write(msg); err != nil {
+		f.Close()
+		return false, "", false
+	}
+	f.Close()
+	cmd := exec.Command(opensslPath, "smime", "-verify", "-noverify", "-in", f.Name(), "-out", os.DevNull)
+	b, err := cmd.CombinedOutput()
+	if err != nil {
+		if _, isExit := err.(*exec.ExitError); !isExit {
+			return false, "", false // could not be run at all: not a verdict
+		}
+		return false, string(b), true
+	}
+	return true, string(b), true
 }
 
 func c08Gen(t *rapid.T) c08Case {
